@@ -64,6 +64,38 @@ var histParser = &interpreter.DefaultOpcodeParser{}
 var histCount int
 var histPrimes = [][]byte{{0x51, 0x63, 0x4c, 0x05, 0x01}, {0x64, 0x4d, 0xff}, {0x51}, {0x63, 0x63, 0x02, 0x01}, {0x63}, {0x63, 0x6a, 0x01}, {0x6a, 0x4c}, {0x63, 0x68, 0x68, 0x4e, 0x01}}
 
+// streamScripts: scripts whose JSON renderings are later decoded from ONE stream with a json.Decoder
+var streamScripts [][]byte
+
+func checkStream() {
+	if len(streamScripts) > 400 {
+		streamScripts = streamScripts[:400]
+	}
+	var buf bytes.Buffer
+	for _, s := range streamScripts {
+		jb, _ := json.Marshal(bscript.NewFromBytes(s))
+		buf.Write(jb)
+		buf.WriteByte('\n')
+	}
+	dec := json.NewDecoder(&buf)
+	var got []*bscript.Script
+	for range streamScripts {
+		sc := &bscript.Script{}
+		if err := dec.Decode(sc); err != nil {
+			c.Violate("Script.UnmarshalJSON/stream", err.Error(), len(got))
+			return
+		}
+		got = append(got, sc)
+	}
+	for i, s := range streamScripts {
+		if !bytes.Equal(*got[i], s) {
+			c.Violate("Script.UnmarshalJSON/keeps-the-json-buffer", fmt.Sprintf("script %d of a stream of %d changed after later ones were decoded: %s, expected %s", i, len(got), trunc(common.Hex(*got[i])), trunc(common.Hex(s))), common.Hex(s))
+			return
+		}
+	}
+	c.Stats.Extra["json_stream_scripts"] = len(got)
+}
+
 func observe(s []byte) *scriptObs {
 	o := &scriptObs{}
 	var sb strings.Builder
@@ -196,11 +228,27 @@ func observe(s []byte) *scriptObs {
 	} else {
 		sb.WriteString(";J" + sg.Sabbr(string(jb)))
 		var back bscript.Script
+		jcopy := append([]byte{}, jb...)
 		if err := json.Unmarshal(jb, &back); err != nil {
 			sb.WriteString(";j-")
 		} else {
-			o.jsonOK, o.jsonBack = true, []byte(back)
+			o.jsonOK, o.jsonBack = true, append([]byte{}, back...)
 			sb.WriteString(";j+" + sg.Habbr(o.jsonBack))
+			// the rendering handed to Unmarshal is the caller's: it is neither changed nor kept (a second conversion
+			// of the same bytes gives the same script, and overwriting them afterwards leaves the script alone)
+			if !bytes.Equal(jb, jcopy) {
+				c.Violate("Script.UnmarshalJSON/modifies-the-json-it-was-given", fmt.Sprintf("%q became %q", trunc(string(jcopy)), trunc(string(jb))), common.Hex(s))
+			}
+			for i := range jb {
+				jb[i] = 'f'
+			}
+			if !bytes.Equal(back, o.jsonBack) {
+				c.Violate("Script.UnmarshalJSON/keeps-the-json-buffer", "the script changes when the JSON bytes it was decoded from are overwritten", common.Hex(s))
+			}
+			// scripts decoded one after the other from a stream keep their values
+			if len(s) > 0 {
+				streamScripts = append(streamScripts, append([]byte{}, s...))
+			}
 		}
 	}
 	o.text = sb.String()
@@ -674,5 +722,6 @@ func main() {
 	}
 
 	c.Stats.Rule = "(1) every byte string of length <= 2 run through DecodeParts, Parse (with and without ErrorOnCheckSig), Unparse, ToASM, NewFromASM, hex and JSON on the Go side (65 793; <= 3 bytes in thorough, Go-level predicates only), the model evaluated on all of length <= 1 plus the seed-chosen residue class mod 8 of the 2-byte ones in quick and on all in thorough; (2) EncodeParts/PushDataPrefix/MinPushSize on item lists with lengths 0,1,2,3,74..77,254..257,65535,65536 and random mixes; (3) every push form x every boundary length complete, cut by one byte, cut to the header, cut to one byte, hostile 32-bit lengths, declared lengths at the top of each length field's range (250..255, 0xfffa..0xffff, 0xfffffff9..0xffffffff, 2^31 +- few) with 0/1/3/100 bytes present, zero-length pushes; (4) grammar-generated scripts (non-push opcodes, pushes of all forms incl. non-minimal) with OP_RETURN at top level / inside IF / after a stray ENDIF, truncated at every position, fixed OP_RETURN shapes, random bytes; (5) ASM round trip on generated domain scripts and every non-push opcode, NewFromASM / NewFromHexString / UnmarshalJSON on arbitrary token strings. distinct = distinct input bytes / item-length vector / string; non-trivial = non-empty input"
+	checkStream()
 	c.Finish()
 }
